@@ -1,3 +1,250 @@
--- stub: the driver of C13 is not built yet
 import WmModel.Basic
-def main : IO Unit := Wm.driverMain (fun _ => "bad-op")
+import WmModel.Poison
+open Wm Wm.Poison
+
+/-!
+  Line protocol of C13 (all strings hex, empty = `-`):
+
+    pq <mode> <ptopic> <filter> <pubout> <ctxTopic> <ctxHandler> <ctxSubscriber> <uuid> <payload> <meta> <sets> <nouts> <err> <opub>
+      mode    sa (middleware called directly) | rt (inside a running message.Router)
+      filter  all (PoisonQueue) | fall | none | text:<needle> | is        (PoisonQueueWithFilter …)
+      pubout  ok | fail:<text>
+      meta    k=v,k=v… sorted | -            sets  k=v,… in the order the handler wrote them | -
+      err     nil | plain:<isSentinel 0/1>:<text> | multi:<isSentinel>:<part>;<part>…
+      opub    ok | fail   (outcome of the Router's own publisher for the outputs; `-` in mode sa)
+    observation:  P<n>[:<topic>|<uuid>|<payload>|<meta>|<sameObject>|<unsettledAtPublish>;…] O:<out uuids> E:<err> A:<meta after> S:<settle>
+      E  nil | same | both:<Error() text>:<flags H=handler error kept, P=publish error kept>     S  - | ack | nack
+    ctor <ptopic>   →  ok | err
+-/
+
+def dropS (s : String) (n : Nat) : String := String.ofList (s.toList.drop n)
+
+def bytesLt : List UInt8 → List UInt8 → Bool
+  | [], [] => false
+  | [], _ :: _ => true
+  | _ :: _, [] => false
+  | a :: as, b :: bs => a < b || (a == b && bytesLt as bs)
+
+def insertKV (kv : Str × Str) : Meta → Meta
+  | [] => [kv]
+  | x :: rest => if bytesLt kv.1 x.1 then kv :: x :: rest else x :: insertKV kv rest
+
+def sortMeta (m : Meta) : Meta := m.foldr insertKV []
+
+def showMeta (m : Meta) : String :=
+  if m.isEmpty then "-" else
+  ",".intercalate ((sortMeta m).map (fun kv => hexEnc kv.1 ++ "=" ++ hexEnc kv.2))
+
+def parseKV (s : String) : Option (Str × Str) :=
+  match s.splitOn "=" with
+  | [k, v] => do pure ((← hexDec k), (← hexDec v))
+  | _ => none
+
+/-- ordered list of pairs; duplicate keys allowed (used for the handler's writes) -/
+def parsePairs (s : String) : Option (List (Str × Str)) :=
+  if s = "-" then some [] else (s.splitOn ",").mapM parseKV
+
+def keysNodup : List (Str × Str) → Bool
+  | [] => true
+  | kv :: rest => !(rest.any (fun x => x.1 == kv.1)) && keysNodup rest
+
+def parseMeta (s : String) : Option Meta := do
+  let m ← parsePairs s
+  if keysNodup m then some m else none
+
+def contains (needle : Str) : Str → Bool
+  | [] => needle.isEmpty
+  | c :: rest => needle.isPrefixOf (c :: rest) || contains needle rest
+
+def parseFilter (s : String) : Option (HErr → Bool) :=
+  match s.splitOn ":" with
+  | ["all"] => some (fun _ => true)
+  | ["fall"] => some (fun _ => true)
+  | ["none"] => some (fun _ => false)
+  | ["is"] => some (fun e => match e with | .plain _ b => b | .multi _ b => b)
+  | ["text", n] => (hexDec n).map (fun n e => contains n e.text)
+  | _ => none
+
+def parsePOut (s : String) : Option POut :=
+  match s.splitOn ":" with
+  | ["ok"] => some .ok
+  | ["fail", t] => (hexDec t).map .fail
+  | _ => none
+
+def parseBit : String → Option Bool
+  | "0" => some false | "1" => some true | _ => none
+
+def parseErr (s : String) : Option (Option HErr) :=
+  match s.splitOn ":" with
+  | ["nil"] => some none
+  | ["plain", b, t] => do pure (some (.plain (← hexDec t) (← parseBit b)))
+  | ["multi", b, ps] => do pure (some (.multi (← (ps.splitOn ";").mapM hexDec) (← parseBit b)))
+  | _ => none
+
+def outMsg (i : Nat) : Msg := ⟨ascii ("out-" ++ toString i), ascii (toString i), []⟩
+
+structure Req where
+  rt     : Bool
+  ptopic : Str
+  filter : HErr → Bool
+  pub    : POut
+  ctx    : Ctx
+  msg    : Msg
+  res    : HRes
+  opub   : Bool
+
+def parseReq (f : List String) : Option Req :=
+  match f with
+  | [mode, pt, fl, po, ct, ch, cs, u, p, m, sets, n, e, op] => do
+    let rt ← (match mode with | "sa" => some false | "rt" => some true | _ => none)
+    let opub ← (match rt, op with | false, "-" => some true | true, "ok" => some true | true, "fail" => some false | _, _ => none)
+    let n ← n.toNat?
+    pure { rt := rt, ptopic := (← hexDec pt), filter := (← parseFilter fl), pub := (← parsePOut po),
+           ctx := ⟨(← hexDec ct), (← hexDec ch), (← hexDec cs)⟩,
+           msg := ⟨(← hexDec u), (← hexDec p), (← parseMeta m)⟩,
+           res := ⟨(← parsePairs sets), (List.range n).map outMsg, (← parseErr e)⟩, opub := opub }
+  | _ => none
+
+def showErr : Option RErr → String
+  | none => "nil"
+  | some (.same _) => "same"
+  | some (.both e t) => "both:" ++ hexEnc (RErr.both e t).text ++ ":HP"
+
+def showUuids (ms : List Msg) : String :=
+  if ms.isEmpty then "-" else ",".intercalate (ms.map (fun m => hexEnc m.uuid))
+
+def showSettle : Settle → String
+  | .ack => "ack" | .nack => "nack"
+
+/-- the model's observation -/
+def modelObs (r : Req) : String :=
+  let o := middleware r.ptopic r.filter r.pub r.ctx r.msg r.res
+  let pubs := o.pubs.map (fun p => "|".intercalate [hexEnc p.1, hexEnc p.2.uuid, hexEnc p.2.payload, showMeta p.2.md, "1", "1"])
+  let pstr := "P" ++ toString pubs.length ++ (if pubs.isEmpty then "" else ":" ++ ";".intercalate pubs)
+  -- mode rt: the outputs are what the Router hands to its publisher (only when the chain returned no error)
+  let outs := if r.rt && o.err.isSome then [] else o.outs
+  let settle := if r.rt then showSettle (routerSettle o r.opub) else "-"
+  " ".intercalate [pstr, "O:" ++ showUuids outs, "E:" ++ showErr o.err, "A:" ++ showMeta o.msg.md, "S:" ++ settle]
+
+/-! ### the property monitor: the statement of C13 evaluated on the observation, not through `middleware` -/
+
+structure PubObs where
+  topic : Str
+  uuid : Str
+  payload : Str
+  md : Meta
+  same : Bool
+  unsettled : Bool
+
+structure Obs where
+  pubs : List PubObs
+  outs : List Str
+  err : String           -- nil | same | both…
+  after : Meta
+  settle : String
+
+def parsePubObs (s : String) : Option PubObs :=
+  match s.splitOn "|" with
+  | [t, u, p, m, sm, un] => do
+    pure ⟨(← hexDec t), (← hexDec u), (← hexDec p), (← parseMeta m), (← parseBit sm), (← parseBit un)⟩
+  | _ => none
+
+def parseObs (f : List String) : Option Obs :=
+  match f with
+  | [p, o, e, a, s] => do
+    let pubs ← (match p.splitOn ":" with
+      | [_] => some []
+      | [_, l] => (l.splitOn ";").mapM parsePubObs
+      | _ => none)
+    let cnt ← (p.splitOn ":").head?.bind (fun h => (dropS h 1).toNat?)
+    if !p.startsWith "P" || cnt != pubs.length then none
+    let outs ← (if o = "O:-" then some [] else if o.startsWith "O:" then ((dropS o 2).splitOn ",").mapM hexDec else none)
+    if !e.startsWith "E:" || !a.startsWith "A:" || !s.startsWith "S:" then none
+    pure ⟨pubs, outs, dropS e 2, (← parseMeta (dropS a 2)), dropS s 2⟩
+  | _ => none
+
+def look (m : Meta) (k : Str) : Option Str := List.lookup k m
+
+/-- metadata as a map: same keys, same values -/
+def metaEq (a b : Meta) : Bool :=
+  a.length == b.length && a.all (fun kv => look b kv.1 == some kv.2)
+
+def monitor (r : Req) (o : Obs) : String := Id.run do
+  if o.err.startsWith "panic" then return "violated:panic"
+  let handled := r.res.err.isNone
+  let accepted := match r.res.err with | some e => r.filter e | none => false
+  -- the message as the handler left it
+  let base := msets r.msg.md r.res.sets
+  let wantOuts := r.res.outs.map (·.uuid)
+  if accepted then
+    let some e := r.res.err | return "violated:internal"
+    -- published exactly once to the poison topic
+    match o.pubs with
+    | [p] =>
+      if p.topic != r.ptopic then return "violated:poison_topic"
+      -- same UUID and payload
+      if p.uuid != r.msg.uuid || p.payload != r.msg.payload then return "violated:poison_once_same_identity"
+      -- metadata naming reason, topic, handler, subscriber
+      if look p.md reasonKey != some e.text then return "violated:poison_reason"
+      if look p.md topicKey != some r.ctx.topic then return "violated:poison_topic_key"
+      if look p.md handlerKey != some r.ctx.handler then return "violated:poison_handler_key"
+      if look p.md subscriberKey != some r.ctx.subscriber then return "violated:poison_subscriber_key"
+      -- … plus the metadata it had
+      if !(base.all (fun kv => poisonKeys.contains kv.1 || look p.md kv.1 == some kv.2)) then return "violated:poison_metadata_kept"
+      if !(p.md.all (fun kv => poisonKeys.contains kv.1 || look base kv.1 == some kv.2)) then return "violated:poison_metadata_kept"
+      -- "only then reported as success": the publish happened while the message was still unsettled
+      if r.rt && !p.unsettled then return "violated:acked_before_poisoned"
+    | _ => return "violated:poison_published_once"
+    match r.pub with
+    | .ok =>
+      -- reported as success so that it gets acked
+      if o.err != "nil" then return "violated:poison_decision"
+      if r.rt && (wantOuts.isEmpty || r.opub) && o.settle != "ack" then return "violated:poisoned_not_acked"
+    | .fail _ =>
+      -- the error is still returned and the message is Nacked
+      if o.err == "nil" then return "violated:poison_decision"
+      -- "the error is still returned": the handler's error itself, or an error that still holds it
+      let keepsHandlerErr := o.err == "same" ||
+        (match o.err.splitOn ":" with | ["both", _, flags] => flags.toList.contains 'H' | _ => false)
+      if !keepsHandlerErr then return "violated:handler_error_lost"
+      if r.rt && o.settle != "nack" then return "violated:publish_failed_not_nacked"
+  else
+    -- success and filtered-out errors pass through unchanged and publish nothing
+    if !o.pubs.isEmpty then return "violated:pass_through_publishes"
+    if handled then
+      if o.err != "nil" then return "violated:pass_through_error"
+      if o.outs != wantOuts then return "violated:pass_through_outputs"
+    else
+      if o.err != "same" then return "violated:pass_through_error"
+      if !r.rt && o.outs != wantOuts then return "violated:pass_through_outputs"
+      if r.rt && o.settle != "nack" then return "violated:failed_not_nacked"
+    if !metaEq o.after base then return "violated:pass_through_message"
+  -- acked implies handled or present in the poison topic
+  if r.rt then
+    if o.settle != "ack" && o.settle != "nack" then return "violated:not_settled"
+    if o.settle == "ack" && !handled then
+      let inPoison := accepted && r.pub == .ok &&
+        o.pubs.any (fun p => p.topic == r.ptopic && p.uuid == r.msg.uuid && p.payload == r.msg.payload)
+      if !inPoison then return "violated:acked_implies_handled_or_poisoned"
+  return "ok"
+
+def handle (line : String) : String :=
+  match line.splitOn " " with
+  | ["M", "ctor", t] => match hexDec t with
+    | some t => if ctorOk t then "ok" else "err"
+    | none => "bad-op"
+  | ["P", "ctor", t, "##", o] => match hexDec t with
+    | some _ => if o = "ok" || o = "err" then "ok" else "violated:ctor"   -- the statement does not speak about construction
+    | none => "bad-op"
+  | "M" :: "pq" :: rest => match parseReq rest with
+    | some r => modelObs r
+    | none => "bad-op"
+  | "P" :: "pq" :: rest =>
+    match parseReq (rest.takeWhile (· != "##")), parseObs ((rest.dropWhile (· != "##")).drop 1) with
+    | some r, some o => monitor r o
+    | some _, none =>
+      if ((rest.dropWhile (· != "##")).drop 1).any (·.startsWith "panic") then "violated:panic" else "bad-op"
+    | _, _ => "bad-op"
+  | _ => "bad-op"
+
+def main : IO Unit := driverMain handle
